@@ -6,6 +6,7 @@ import Ovldverif.Model.JsonG
 import Ovldverif.Model.JsonH
 import Ovldverif.Model.Build
 import Ovldverif.Model.BuildTree
+import Ovldverif.Model.BuildForest
 import Ovldverif.Model.ClassBody
 import Ovldverif.Spec.ClassSpec
 import Ovldverif.Model.Normalize
@@ -294,6 +295,45 @@ def runT (j : Json) : Except String Json := do
       ("safe", toJson t.safe)])
   return Json.mkObj [("ops", Json.arr out)]
 
+/-- layer U: a function with any number of linked variants (`Model/BuildForest.lean`) -/
+def runU (j : Json) : Except String Json := do
+  let bad ← (← jArr (jFieldD j "bad" (Json.arr #[]))).toList.mapM jNat
+  let conflict ← (← jArr (jFieldD j "conflict" (Json.arr #[]))).toList.mapM jNat
+  let pairs ← (← jArr (jFieldD j "pairs" (Json.arr #[]))).toList.mapM (fun x => do
+    let a ← jArr x
+    pure ((← jNat a[0]!), (← jNat a[1]!)))
+  let cfg : Build.Cfg := { bad := fun d => bad.contains d,
+                           namesOK := fun ds => !(ds.any (fun d => conflict.contains d) && ds.length ≥ 2) &&
+                             pairs.all (fun ab => !(ds.contains ab.1 && ds.contains ab.2)) }
+  let old := match jFieldD j "old" (Json.bool false) with | Json.bool b => b | _ => false
+  let ops ← jArr (← jField j "ops")
+  let mut t : Build.F := {}
+  let mut out : Array Json := #[]
+  for op in ops do
+    let a ← jArr op
+    let kind ← jStr a[0]!
+    let flag := fun (i : Nat) => match a[i]? with | some (Json.bool true) => true | _ => false
+    let flags := fun (i : Nat) => match a[i]? with
+      | some (Json.arr xs) => xs.toList.map (fun x => match x with | Json.bool true => true | _ => false)
+      | _ => []
+    let top : Build.FOp ← (match kind with
+      | "regP" => do pure (Build.FOp.regP (← jNat a[1]!) (flag 2) (flags 3))
+      | "unregP" => do pure (Build.FOp.unregP (← jNat a[1]!) (flag 2) (flags 3))
+      | "newC" => pure Build.FOp.newC
+      | "regC" => do pure (Build.FOp.regC (← jNat a[1]!) (← jNat a[2]!) (flag 3))
+      | "callP" => do
+        let r ← jStr a[1]!
+        pure (Build.FOp.callP (if r == "fn" then .fn else .obj) (flag 2))
+      | "callC" => do
+        let r ← jStr a[2]!
+        pure (Build.FOp.callC (← jNat a[1]!) (if r == "fn" then .fn else .obj) (flag 3))
+      | _ => throw s!"bad op {kind}")
+    let (t', o) := if old then Build.stepFOld cfg t top else Build.stepF cfg t top
+    t := t'
+    out := out.push (Json.mkObj [("out", bOutJson o), ("p", bStateJson t.p),
+      ("cs", Json.arr (t.cs.map (fun ch => bStateJson ch.c)).toArray), ("safe", toJson t.safe)])
+  return Json.mkObj [("ops", Json.arr out)]
+
 /-- layer J: class bodies under the overloading metaclass (`Model/ClassBody.lean`) -/
 def runJ (j : Json) : Except String Json := do
   let cfg ← cfgOfJson j
@@ -469,6 +509,7 @@ def runLine (line : String) : String :=
       | "H" => runH j
       | "I" => runI j
       | "T" => runT j
+      | "U" => runU j
       | "J" => runJ j
       | "B" => runB j
       | _ => throw s!"unknown layer {layer}"
